@@ -668,7 +668,7 @@ def simple_class_progs(rng: Rng, tier):
             for r in range(nt):
                 sl = slice(r * n, (r + 1) * n)
                 ws[r] += sum(a * b for a, b in zip(wv[sl], pv[sl])); wl[r] += sum(a * b for a, b in zip(wv[sl], lv[sl]))
-        out.append(("WeightedCalibration", {"num_tasks": nt}, bs, [] if any(x == 0 for x in wl) else [a / b for a, b in zip(ws, wl)], 1e-9))
+        out.append(("WeightedCalibration", {"num_tasks": nt}, bs, [] if all(x == 0 for x in wl) else [xdiv(a, b) for a, b in zip(ws, wl)], 1e-9))   # empty only when NO task has target weight
         # text classes
         V = rng.choice([2, 50])
         inp_all, tgt_all, bs = [], [], []
